@@ -1,88 +1,386 @@
 """First-match chain extraction for the two sibling resolvers
-(_param_resolution.resolve_runtime_value and inspect_origin)."""
+(_param_resolution.resolve_runtime_value and inspect_origin).
+
+The chain is decided *semantically*, not from the textual order of the `if` statements: the function
+body is read as a decision tree over its guard atoms (`name in processor_config`, `name in context`,
+`<default> is not _NO_DEFAULT`, ...), the tree is evaluated for every truth assignment of the atoms,
+and the ordered first-match list (guard channel, result channel) is reconstructed from that table.
+Two bodies that compute the same function of the atoms (guard written negated with the branches
+swapped, `elif` instead of `if`, a conditional expression, a named sub-expression, nesting) therefore
+yield the same chain; a body that consults the channels in another order, skips one, or guards one by
+something else yields a different chain.
+"""
 from __future__ import annotations
 
 import ast
-from typing import List, Optional, Tuple
+import copy
+import itertools
+from typing import Callable, Dict, List, Optional, Set, Tuple
 
 from ..engine import dotted_name, walk_no_nested
 
 PARAMRES = "semantiva/pipeline/_param_resolution.py"
+
+# channel parameters of the two resolvers (keyword-only parameters: part of the API, not renameable locals)
+_CONFIG = "processor_config"
+_CONTEXT = "context"
+_ORIGIN = "key_origin"
+_DELETED = "deleted_keys"
+_NAME = "name"
+_SENTINEL = "_NO_DEFAULT"
+_MAX_ATOMS = 10
 
 
 def _names(e: ast.AST) -> set:
     return {x.id for x in ast.walk(e) if isinstance(x, ast.Name)}
 
 
-def classify_test(test: ast.AST, fn: ast.FunctionDef) -> str:
-    """Which channel a guard consults: config / context / default / other (by the data it reads)."""
-    names = _names(test)
-    txt = ast.unparse(test)
-    if "processor_config" in names:
-        return "config" if isinstance(test, ast.Compare) and isinstance(test.ops[0], ast.In) and len(test.ops) == 1 else "config?"
-    if "context" in names or "key_origin" in names:
-        # inspection must also exclude keys deleted so far
-        if "key_origin" in names:
-            ok = isinstance(test, ast.BoolOp) and isinstance(test.op, ast.And) and "not in deleted_keys" in txt and "in key_origin" in txt
-            return "context" if ok else "context?"
-        ok = isinstance(test, ast.Compare) and isinstance(test.ops[0], ast.In) and len(test.ops) == 1
-        return "context" if ok else "context?"
-    if "_NO_DEFAULT" in names and (names & DEFAULT_LOCALS or "_default_for" in txt):
-        ok = isinstance(test, ast.Compare) and isinstance(test.ops[0], ast.IsNot) and len(test.ops) == 1
+# ---------------------------------------------------------------------------
+# local single-assignment substitution (a named sub-expression reads like the expression itself)
+# ---------------------------------------------------------------------------
+
+
+def _params(fn: ast.AST) -> Set[str]:
+    a = fn.args
+    out = {x.arg for x in list(a.posonlyargs) + list(a.args) + list(a.kwonlyargs)}
+    if a.vararg:
+        out.add(a.vararg.arg)
+    if a.kwarg:
+        out.add(a.kwarg.arg)
+    return out
+
+
+def _single_defs(fn: ast.AST) -> Dict[str, ast.AST]:
+    """Locals bound exactly once in *fn* by a plain `x = e`, `x: T = e` or `(x := e)`."""
+    bound: Dict[str, List[Optional[ast.AST]]] = {}
+    for n in walk_no_nested(fn):
+        if isinstance(n, ast.Assign):
+            for t in n.targets:
+                if isinstance(t, ast.Name):
+                    bound.setdefault(t.id, []).append(n.value)
+                else:
+                    for x in ast.walk(t):
+                        if isinstance(x, ast.Name) and isinstance(x.ctx, ast.Store):
+                            bound.setdefault(x.id, []).append(None)
+        elif isinstance(n, ast.AnnAssign) and isinstance(n.target, ast.Name):
+            bound.setdefault(n.target.id, []).append(n.value)
+        elif isinstance(n, ast.NamedExpr) and isinstance(n.target, ast.Name):
+            bound.setdefault(n.target.id, []).append(n.value)
+        elif isinstance(n, ast.Name) and isinstance(n.ctx, (ast.Store, ast.Del)):
+            # for-targets, with-targets, augmented assignment, del ...: handled below by the count
+            pass
+    stores: Dict[str, int] = {}
+    for n in walk_no_nested(fn):
+        if isinstance(n, ast.Name) and isinstance(n.ctx, (ast.Store, ast.Del)):
+            stores[n.id] = stores.get(n.id, 0) + 1
+        elif isinstance(n, ast.ExceptHandler) and n.name:
+            stores[n.name] = stores.get(n.name, 0) + 2
+    pars = _params(fn)
+    return {k: v[0] for k, v in bound.items() if len(v) == 1 and v[0] is not None and stores.get(k, 0) == 1 and k not in pars}
+
+
+class _Resolve(ast.NodeTransformer):
+    def __init__(self, defs: Dict[str, ast.AST]):
+        self.defs = defs
+        self.depth = 0
+
+    def visit_NamedExpr(self, node: ast.NamedExpr):
+        return self.visit(copy.deepcopy(node.value))
+
+    def visit_Name(self, node: ast.Name):
+        if isinstance(node.ctx, ast.Load) and node.id in self.defs and self.depth < 12:
+            self.depth += 1
+            try:
+                return self.visit(copy.deepcopy(self.defs[node.id]))
+            finally:
+                self.depth -= 1
+        return node
+
+
+def _resolved(e: ast.AST, defs: Dict[str, ast.AST]) -> ast.AST:
+    return _Resolve(defs).visit(copy.deepcopy(e))
+
+
+# ---------------------------------------------------------------------------
+# guard atoms
+# ---------------------------------------------------------------------------
+
+
+def _canon(e: ast.AST) -> Tuple[ast.AST, bool]:
+    """(positive form, polarity) of a leaf test: `a not in b`, `a is b`, `a != b`, `not a` are the
+    negations of `a in b`, `a is not b`, `a == b`, `a`."""
+    if isinstance(e, ast.UnaryOp) and isinstance(e.op, ast.Not):
+        p, pol = _canon(e.operand)
+        return p, not pol
+    if isinstance(e, ast.Compare) and len(e.ops) == 1:
+        flip = {ast.NotIn: ast.In, ast.Is: ast.IsNot, ast.NotEq: ast.Eq}
+        for neg, pos in flip.items():
+            if isinstance(e.ops[0], neg):
+                return ast.Compare(left=e.left, ops=[pos()], comparators=e.comparators), False
+    return e, True
+
+
+def _membership_of_name(e: ast.AST, channel: str) -> bool:
+    """`name in <channel>` / `name in <channel>.keys()`"""
+    if not (isinstance(e, ast.Compare) and len(e.ops) == 1 and isinstance(e.ops[0], ast.In)):
+        return False
+    if dotted_name(e.left) != _NAME:
+        return False
+    c = e.comparators[0]
+    if isinstance(c, ast.Call) and isinstance(c.func, ast.Attribute) and c.func.attr == "keys" and not c.args and not c.keywords:
+        c = c.func.value
+    return dotted_name(c) == channel
+
+
+def classify_leaf(e: ast.AST) -> str:
+    """Channel a (positive, resolved) guard atom consults, by the data it reads; `?` = reads the
+    channel but is not the plain presence test."""
+    names = _names(e)
+    if _CONFIG in names:
+        return "config" if _membership_of_name(e, _CONFIG) else "config?"
+    if _ORIGIN in names:
+        return "origin" if _membership_of_name(e, _ORIGIN) and _DELETED not in names else "context?"
+    if _DELETED in names:
+        return "deleted" if _membership_of_name(e, _DELETED) else "context?"
+    if _CONTEXT in names:
+        return "context" if _membership_of_name(e, _CONTEXT) else "context?"
+    if _SENTINEL in names:
+        ok = isinstance(e, ast.Compare) and len(e.ops) == 1 and isinstance(e.ops[0], ast.IsNot)
+        if ok:
+            a, b = e.left, e.comparators[0]
+            other = b if dotted_name(a) == _SENTINEL else (a if dotted_name(b) == _SENTINEL else None)
+            ok = other is not None and isinstance(other, ast.Call) and (dotted_name(other.func) or "").endswith("_default_for") and any(dotted_name(x) == _NAME for x in list(other.args) + [k.value for k in other.keywords])
         return "default" if ok else "default?"
+    if "_default_for" in ast.unparse(e):
+        return "default?"
+    return "other"
+
+
+def classify_test(test: ast.AST, fn: ast.FunctionDef) -> str:
+    """Channel of a whole `if` test (kept for callers that look at one test in isolation)."""
+    defs = _single_defs(fn)
+    t = _resolved(test, defs)
+    if isinstance(t, ast.BoolOp) and isinstance(t.op, ast.And) and len(t.values) == 2:
+        labs = sorted((classify_leaf(_canon(v)[0]), _canon(v)[1]) for v in t.values)
+        if labs == [("deleted", False), ("origin", True)]:
+            return "context"
+    p, pol = _canon(t)
+    lab = classify_leaf(p)
+    if lab == "origin":
+        return "context?"
+    return lab if pol or lab in ("other",) else lab + "?" if not lab.endswith("?") else lab
+
+
+def classify_value(v: Optional[ast.AST], defs: Dict[str, ast.AST]) -> str:
+    """Which channel's value / label an exit yields."""
+    if v is None:
+        return "const:None"
+    if isinstance(v, ast.Tuple) and v.elts and isinstance(v.elts[0], ast.Constant):
+        return str(v.elts[0].value)
+    r = _resolved(v, defs)
+    names = _names(r)
+    if _CONFIG in names:
+        return "config"
+    if _CONTEXT in names:
+        return "context"
+    if "_default_for" in ast.unparse(r):
+        return "default"
+    if isinstance(r, ast.Constant):
+        return f"const:{r.value!r}"
     return "other"
 
 
 def classify_result(body: List[ast.stmt]) -> str:
-    """What the guarded branch yields: which channel's value / label is returned."""
+    """What a straight-line branch yields (label of its last statement)."""
     if not body:
         return "none"
     last = body[-1]
     if isinstance(last, ast.Raise):
-        t = last.exc.func if isinstance(last.exc, ast.Call) else last.exc
-        return "raise:" + (dotted_name(t) or "?")
+        return _raise_label(last)
     if isinstance(last, ast.Return) and last.value is not None:
-        v = last.value
-        if isinstance(v, ast.Tuple) and v.elts and isinstance(v.elts[0], ast.Constant):
-            return str(v.elts[0].value)
-        names = _names(v)
-        if "processor_config" in names:
-            return "config"
-        if "context" in names:
-            return "context"
-        if names & DEFAULT_LOCALS or "_default_for" in ast.unparse(v):
-            return "default"
-        if isinstance(v, ast.Constant):
-            return f"const:{v.value!r}"
-        return "other"
+        return classify_value(last.value, {})
     return "other"
 
 
-DEFAULT_LOCALS: set = set()
+def _raise_label(st: ast.Raise) -> str:
+    if st.exc is None:
+        return "raise:?"
+    t = st.exc.func if isinstance(st.exc, ast.Call) else st.exc
+    return "raise:" + (dotted_name(t) or "?")
+
+
+DEFAULT_LOCALS: set = set()  # kept for importers; no longer consulted
+
+
+# ---------------------------------------------------------------------------
+# the decision tree and its truth table
+# ---------------------------------------------------------------------------
+
+
+class _Tree:
+    def __init__(self, fn: ast.FunctionDef):
+        self.fn = fn
+        self.defs = _single_defs(fn)
+        self.atoms: List[Tuple[str, str]] = []  # (key, label) in order of first appearance
+        self._keys: Dict[str, str] = {}
+        self.rebinds = sorted(
+            {x.id for n in walk_no_nested(fn) for x in ([n] if isinstance(n, ast.Name) else []) if isinstance(x.ctx, (ast.Store, ast.Del)) and x.id in (_NAME, _CONFIG, _CONTEXT, _ORIGIN, _DELETED, "processor_cls")}
+        )
+        self.body = [s for s in fn.body if not (isinstance(s, ast.Expr) and isinstance(s.value, ast.Constant))]
+        self._collect(self.body)
+
+    # -- atoms
+    def _leaves(self, test: ast.AST) -> List[ast.AST]:
+        if isinstance(test, ast.BoolOp):
+            return [l for v in test.values for l in self._leaves(v)]
+        if isinstance(test, ast.UnaryOp) and isinstance(test.op, ast.Not):
+            return self._leaves(test.operand)
+        if isinstance(test, ast.IfExp):
+            return self._leaves(test.test) + self._leaves(test.body) + self._leaves(test.orelse)
+        return [test]
+
+    def _note_test(self, test: ast.AST) -> None:
+        for leaf in self._leaves(_resolved(test, self.defs)):
+            if isinstance(leaf, ast.Constant):
+                continue
+            p, _pol = _canon(leaf)
+            key = ast.unparse(p)
+            if key not in self._keys:
+                self._keys[key] = classify_leaf(p)
+                self.atoms.append((key, self._keys[key]))
+
+    def _note_value(self, v: Optional[ast.AST]) -> None:
+        if isinstance(v, ast.IfExp):
+            self._note_test(v.test)
+            self._note_value(v.body)
+            self._note_value(v.orelse)
+
+    def _collect(self, stmts: List[ast.stmt]) -> None:
+        for st in stmts:
+            if isinstance(st, ast.If):
+                self._note_test(st.test)
+                self._collect(st.body)
+                self._collect(st.orelse)
+            elif isinstance(st, ast.Return):
+                self._note_value(st.value)
+
+    # -- evaluation under a truth assignment
+    def _test(self, test: ast.AST, env: Dict[str, bool]) -> bool:
+        if isinstance(test, ast.BoolOp):
+            if isinstance(test.op, ast.And):
+                return all(self._test(v, env) for v in test.values)
+            return any(self._test(v, env) for v in test.values)
+        if isinstance(test, ast.UnaryOp) and isinstance(test.op, ast.Not):
+            return not self._test(test.operand, env)
+        if isinstance(test, ast.IfExp):
+            return self._test(test.body if self._test(test.test, env) else test.orelse, env)
+        if isinstance(test, ast.Constant):
+            return bool(test.value)
+        p, pol = _canon(test)
+        val = env[ast.unparse(p)]
+        return val if pol else not val
+
+    def _value(self, v: Optional[ast.AST], env: Dict[str, bool]) -> str:
+        if isinstance(v, ast.IfExp):
+            return self._value(v.body if self._test(_resolved(v.test, self.defs), env) else v.orelse, env)
+        return classify_value(v, self.defs)
+
+    def run(self, stmts: List[ast.stmt], env: Dict[str, bool]) -> Optional[str]:
+        for st in stmts:
+            if isinstance(st, ast.If):
+                r = self.run(st.body if self._test(_resolved(st.test, self.defs), env) else st.orelse, env)
+                if r is not None:
+                    return r
+            elif isinstance(st, ast.Return):
+                return self._value(st.value, env)
+            elif isinstance(st, ast.Raise):
+                return _raise_label(st)
+            elif isinstance(st, (ast.Try, ast.With, ast.For, ast.While, ast.AsyncFor, ast.AsyncWith)) or st.__class__.__name__ in ("Match", "TryStar"):
+                return "compound"
+        return None
 
 
 def extract_chain(fn: ast.FunctionDef) -> List[Tuple[str, str]]:
-    """Ordered (guard channel, result channel) pairs of a first-match function."""
-    chain: List[Tuple[str, str]] = []
-    DEFAULT_LOCALS.clear()
-    for n in walk_no_nested(fn):
-        if isinstance(n, ast.Assign) and isinstance(n.value, ast.Call) and "_default_for" in ast.unparse(n.value.func):
-            DEFAULT_LOCALS.update(t.id for t in n.targets if isinstance(t, ast.Name))
+    """Ordered (guard channel, result channel) pairs of a first-match function.
 
-    def walk(body: List[ast.stmt]) -> None:
-        for st in body:
-            if isinstance(st, ast.If):
-                chain.append((classify_test(st.test, fn), classify_result(st.body)))
-                cur = st
-                while len(cur.orelse) == 1 and isinstance(cur.orelse[0], ast.If):
-                    cur = cur.orelse[0]
-                    chain.append((classify_test(cur.test, fn), classify_result(cur.body)))
-                if cur.orelse:
-                    chain.append(("else", classify_result(cur.orelse)))
-            elif isinstance(st, (ast.Return, ast.Raise)):
-                chain.append(("always", classify_result([st])))
-            elif isinstance(st, (ast.Try, ast.With, ast.For, ast.While)):
-                chain.append(("compound", "other"))
+    `[("config", "config"), ("context", "context"), ("default", "default"), ("always", X)]` means:
+    the config value whenever the name is configured; otherwise the context value whenever the context
+    has it; otherwise the default whenever there is one; otherwise X.  Guard labels: config / context /
+    default are the plain presence tests of the three channels (`context` for inspect_origin is
+    `name in key_origin and name not in deleted_keys`); a trailing `?` marks a test that reads the
+    channel but is not its presence test.
+    """
+    tree = _Tree(fn)
+    chain: List[Tuple[str, str]] = [(f"rebinds:{x}", "other") for x in tree.rebinds]
+    atoms = tree.atoms
+    if len(atoms) > _MAX_ATOMS:
+        return chain + [("compound", "other")]
+    keys = [k for k, _ in atoms]
+    table: List[Tuple[Dict[str, bool], str]] = []
+    for bits in itertools.product((True, False), repeat=len(keys)):
+        env = dict(zip(keys, bits))
+        r = tree.run(tree.body, env)
+        table.append((env, "fallthrough" if r is None else r))
 
-    walk([s for s in fn.body if not (isinstance(s, ast.Expr) and isinstance(s.value, ast.Constant))])
-    return chain
+    # candidate guards, in order of first appearance
+    Guard = Tuple[str, Callable[[Dict[str, bool]], bool]]
+    guards: List[Guard] = []
+    origin = next((k for k, lab in atoms if lab == "origin"), None)
+    deleted = next((k for k, lab in atoms if lab == "deleted"), None)
+    for k, lab in atoms:
+        if lab == "origin":
+            if deleted is not None:
+                guards.append(("context", lambda env, o=k, d=deleted: env[o] and not env[d]))
+            guards.append(("context?", lambda env, o=k: env[o]))
+        elif lab == "deleted":
+            guards.append(("context?", lambda env, d=k: not env[d]))
+        else:
+            guards.append((lab, lambda env, a=k: env[a]))
+
+    rest = table
+    used: Set[int] = set()
+    while True:
+        results = {r for _e, r in rest}
+        if len(results) == 1:
+            chain.append(("always", results.pop()))
+            return chain
+        if not rest:
+            return chain
+        for i, (lab, pred) in enumerate(guards):
+            if i in used:
+                continue
+            hit = [(e, r) for e, r in rest if pred(e)]
+            if hit and len({r for _e, r in hit}) == 1 and len(hit) < len(rest):
+                chain.append((lab, hit[0][1]))
+                rest = [(e, r) for e, r in rest if not pred(e)]
+                used.add(i)
+                break
+        else:
+            # not a first-match list over the presence tests: describe what is left
+            for lab, pred in [g for i, g in enumerate(guards) if i not in used]:
+                rs = sorted({r for e, r in rest if pred(e)})
+                if rs:
+                    chain.append((lab + "~", "|".join(rs)))
+            return chain
+
+
+def exit_values(fn: ast.FunctionDef) -> List[Tuple[str, ast.AST]]:
+    """(channel label, returned expression with single-assignment locals substituted) for every
+    value the function can return (the arms of a returned conditional expression count separately)."""
+    defs = _single_defs(fn)
+    out: List[Tuple[str, ast.AST]] = []
+
+    def arms(v: Optional[ast.AST]) -> None:
+        if isinstance(v, ast.IfExp):
+            arms(v.body)
+            arms(v.orelse)
+        elif v is not None:
+            out.append((classify_value(v, defs), _resolved(v, defs)))
+        else:
+            out.append(("const:None", ast.Constant(value=None)))
+
+    rets = [n for n in walk_no_nested(fn) if isinstance(n, ast.Return)]
+    rets.sort(key=lambda r: (r.lineno, r.col_offset))
+    for r in rets:
+        arms(r.value)
+    return out
